@@ -354,6 +354,10 @@ func (e *e6Interp) outerName(v ssa.Value) string {
 		return "param:" + x.Name()
 	case *ssa.FreeVar:
 		return "free:" + x.Name()
+	case *ssa.Phi:
+		if x.Comment != "" {
+			return "phi:" + x.Comment + ":" + x.Name()
+		}
 	}
 	return v.Name()
 }
